@@ -491,6 +491,38 @@ def run_reference_corpus(ctx, drv):
                    not stats["disagree"], str(stats["disagree"][:5]))
 
 
+def run_reshape_half(ctx, klong):
+    """Reshape: "when the value -1 appears in the shape, it denotes half the size of the source vector".  Oracle by
+    substitution: a:^b with -1 in a equals the same Reshape with (#b):%2 written out; the shape is held in a
+    variable and used again with a source of another size (it must not be changed by the verb)"""
+    shapes = [[-1, 2], [2, -1], [-1], [-1, 3], [3, -1], [2, -1, 2], [-1, -1]]
+    sources = [list(range(10)), list(range(6)), list(range(8)), [1.5, 2.5, 3.5, 4.5], list(range(12)), [7, 8]]
+    P = U.from_py
+    for sh in shapes:
+        klong(f"c01vs::{U.klit(P(sh), False)}")
+        for src in sources:
+            half = len(src) // 2
+            if half == 0:
+                continue
+            want_sh = [half if d == -1 else d for d in sh]
+            lit = U.klit(P(src), False)
+            want = real_eval(klong, f"{U.klit(P(want_sh), False)}:^{lit}")
+            for form in (f"c01vs:^{lit}", f"{U.klit(P(sh), False)}:^{lit}"):
+                got = real_eval(klong, form)
+                ctx.count(("reshape-half", tuple(sh), tuple(src), form[:5]), nontrivial=True)
+                ctx.bump("reshape:half-size-cases")
+                if want[0] == 'E' or got[0] == 'E' or not U.veq(want, got):
+                    ctx.oracle_fail("reshape:half-size", dict(text=f"c01vs::{U.klit(P(sh), False)};{form}", earlier_sources="see rule"),
+                                    U.show(want) if want[0] != 'E' else f"raises {want[1]}",
+                                    U.show(got) if got[0] != 'E' else f"raises {got[1]}",
+                                    "-1 in the shape must denote half the size of THIS source")
+            now = U.canon(klong("c01vs"))
+            if now != P(sh):
+                ctx.oracle_fail("operand-changed:D:^", dict(text=f"c01vs::{U.klit(P(sh), False)};c01vs:^{lit};c01vs"),
+                                U.show(P(sh)), U.show(now), "Reshape changed the value of its shape operand")
+                klong(f"c01vs::{U.klit(P(sh), False)}")
+
+
 def run(ctx):
     from klongpy import KlongInterpreter
     klong = KlongInterpreter()
@@ -511,6 +543,7 @@ def run(ctx):
         replies = drv.ask_many(lines) if drv else [None] * len(cases)
         per_verb = {}
         nvariants = 0
+        nbound = 0
         for c, rep in zip(cases, replies):
             ar, verb, a, b = c
             text = case_text(c)
@@ -552,9 +585,35 @@ def run(ctx):
                                     f"{verb}: operands computed as n+0 give another value than the literals")
             if ctext is not None:
                 nvariants += 1
+            # the same application with its operands BOUND to variables (the expression compiler's path for the
+            # atomic verbs), in all three mixes of variable / literal; a verb must not change its operands
+            if ref is not None and real[0] != 'E' and (nbound % 3 == 0 or ctx.tier != "quick"):
+                la, lb = "(" + U.klit(a, False) + ")", (None if b is None else "(" + U.klit(b, False) + ")")
+                klong(f"c01va::{la}")
+                if lb is not None:
+                    klong(f"c01vb::{lb}")
+                before = (U.canon(klong("c01va")), U.canon(klong("c01vb")) if lb is not None else None)
+                forms = [f"{verb}c01va"] if ar == "M" else [f"c01va{verb}c01vb", f"c01va{verb}{lb}", f"{la}{verb}c01vb"]
+                for form in forms:
+                    real3 = real_eval(klong, form)
+                    ctx.bump("bound-operand-variants")
+                    if real3[0] == 'E' or not U.veq(real, real3):
+                        ctx.oracle_fail("bound-operand:" + f"{ar}{verb}:" + ":".join(shape_class(o) for o in ([a] if b is None else [a, b])),
+                                        dict(text=f"c01va::{la};" + (f"c01vb::{lb};" if lb else "") + form), U.show(real),
+                                        U.show(real3) if real3[0] != 'E' else f"raises {real3[1]}",
+                                        f"{verb}: operands held in variables give another value than the same literals")
+                        break
+                after = (U.canon(klong("c01va")), U.canon(klong("c01vb")) if lb is not None else None)
+                if after != before:
+                    ctx.oracle_fail("operand-changed:" + f"{ar}{verb}", dict(text=f"c01va::{la};" + (f"c01vb::{lb};" if lb else "") + forms[0]),
+                                    U.show(before[0]) + (" ; " + U.show(before[1]) if before[1] else ""),
+                                    U.show(after[0]) + (" ; " + U.show(after[1]) if after[1] else ""),
+                                    f"{verb} changed the value of an operand variable")
+            nbound += 1
             if len(ctx.samples) < 6 and ref is not None and st["ref_defined"] % 97 == 1:
                 ctx.sample(dict(text=text, ref=U.show(ref), real=U.show(real) if real[0] != 'E' else real[1]))
         ctx.extra["per_verb"] = per_verb
+        run_reshape_half(ctx, klong)
     finally:
         if drv:
             drv.close()
